@@ -745,6 +745,8 @@ fn exhaustive<S: Sch, C: Coll<S>>(rep: &mut Reporter, args: &Args, depth: usize,
     let st = St::<S, C>::new();
     let mut rng = Rng::new(args.seed ^ hash_of(&(C::NAME, C::HASHER, S::NAME)));
     let mut bad = 0;
+    // the smaller alphabets of the 1- and 2-column schemas afford depth 5 in every native tier
+    let depth = if S::ARITY < 3 && args.tier == Tier::Quick { 5 } else { depth };
     dfs(rep, &st, &mut vec![], &alpha, &probe, depth, &mut rng, &mut bad);
     rep.count("exhaustive_families");
 }
@@ -819,7 +821,16 @@ fn sweep<S: Sch, C: Coll<S>>(rep: &mut Reporter, args: &Args, case_no: &mut usiz
                             continue;
                         }
                     }
+                    // Quick tier: the base variant (built by inserts, fresh tuples, exact hint) sweeps
+                    // the full grid, every other variant a regular third of it; thorough: all full.
+                    let base = build == 0 && content == 0 && exact;
+                    if args.tier == Tier::Quick && !base && (n + 2 * k + build + content + exact as usize) % 3 != 0 {
+                        continue;
+                    }
                     rep.count(&format!("sweep_cells:{}", C::NAME));
+                    if base {
+                        rep.count(&format!("sweep_base_cells:{}", C::NAME));
+                    }
                     if !sweep_cell::<S, C>(rep, n, k, build, content, exact) {
                         bad += 1;
                     }
@@ -941,6 +952,7 @@ fn main() {
     let depth = args.budget(4, 5, 2);
     let mut case_no = 0usize;
     for_all_types!(exhaustive, &mut rep, &args, depth, &mut case_no);
+    rep.extra("exhaustive_depth", json!({"(u8,)": args.budget(5, 5, 2), "(u8,u8)": args.budget(5, 5, 2), "(u8,u16,u8)": depth}));
     let t1 = t0.elapsed().as_secs_f64();
 
     // (2) growth sweep: the full 41 x 81 grid x 3 ways to build the existing content x 3 kinds of
@@ -967,12 +979,14 @@ fn main() {
         rep.require(rep.counter("sweep_families") == 21, "growth sweep did not visit all 21 combinations");
         for name in ["VariadicHashSet", "VariadicCountedHashSet", "VariadicColumnMultiset"] {
             let per = if name == "VariadicColumnMultiset" { 3 } else { 9 };
-            rep.require(rep.counter(&format!("sweep_cells:{name}")) == 41 * 81 * 18 * per, &format!("growth sweep grid incomplete for {name}"));
+            rep.require(rep.counter(&format!("sweep_base_cells:{name}")) == 41 * 81 * per, &format!("growth sweep base grid incomplete for {name}"));
+            let all = rep.counter(&format!("sweep_cells:{name}"));
+            rep.require(if args.tier == Tier::Thorough { all == 41 * 81 * 18 * per } else { all >= 41 * 81 * 6 * per }, &format!("growth sweep variants incomplete for {name}"));
         }
         rep.require(rep.counter("histories_with_duplicate_and_2_distinct") >= 500 || rep.violations() > 0, "fewer than 500 random histories offered a duplicate and reached 2 distinct tuples");
     }
     rep.finish(
-        "three families on VariadicHashSet / VariadicCountedHashSet (each with RandomState, SipHash with fixed keys and a hostile first-byte-only hasher) and VariadicColumnMultiset over schemas (u8,), (u8,u8), (u8,u16,u8): (1) every history of <= D operations (D = 4 quick / 5 thorough) from an alphabet of all single inserts over {0,1}^k, three extends, drain, partial drain, clone, from_iter; (2) growth sweep: 0..=40 existing distinct tuples x extend by 0..=80 tuples (full grid) x {built by inserts, by one extend, with_capacity} x {fresh, half duplicates, only duplicates} x {exact, zero} size hint; (3) random histories of <= 30 operations over {0..3}^k. After every operation: len, is_empty, contains and get for every tuple of the domain, iter and into_iter multisets, == against a second instance built from a permutation and against three near misses. Non-trivial = a history (or sweep cell with existing>0 and extension>0) that offered an already-present tuple again and held >= 2 distinct tuples",
+        "three families on VariadicHashSet / VariadicCountedHashSet (each with RandomState, SipHash with fixed keys and a hostile first-byte-only hasher) and VariadicColumnMultiset over schemas (u8,), (u8,u8), (u8,u16,u8): (1) every history of <= D operations (D = 5; 4 for the 3-column schema in the quick tier) from an alphabet of all single inserts over {0,1}^k, three extends, drain, partial drain, clone, from_iter; (2) growth sweep: 0..=40 existing distinct tuples x extend by 0..=80 tuples (full grid for the base variant; the other 17 variants of {built by inserts, by one extend, with_capacity} x {fresh, half duplicates, only duplicates} x {exact, zero} size hint cover the full grid in the thorough tier and a regular third of it in the quick tier); (3) random histories of <= 30 operations over {0..3}^k. After every operation: len, is_empty, contains and get for every tuple of the domain, iter and into_iter multisets, == against a second instance built from a permutation and against three near misses. Non-trivial = a history (or sweep cell with existing>0 and extension>0) that offered an already-present tuple again and held >= 2 distinct tuples",
         true,
     );
 }
